@@ -16,6 +16,9 @@ import falcon.asgi  # noqa: E402
 
 from engine.envmodels import asgi_call, make_environ, make_scope, wsgi_call  # noqa: E402
 from engine.rt import fail, notrace, pick, pickb  # noqa: E402
+from engine.driver import known_findings as _kf  # noqa: E402
+
+LISTED = set(_kf()[0].get('C04', {}))
 
 PROPERTY = 'C04'
 UNITS = ['falcon.app.App.add_error_handler/_find_error_handler/_handle_exception/_http_error_handler/_http_status_handler/'
@@ -356,6 +359,57 @@ def render_menu_case(asgi, si, use_desc, use_code, hdr, ai, vi, href, ti):
         return render_case(asgi, si, title, use_desc, title + 'd', use_code, 77, hdr, ai, vi, href)
 
 
+class _RenderFault:
+    def on_get(self, req, resp):
+        resp.media = {'a': 1}
+        resp.content_type = 'application/x-nope'
+
+
+class _RenderFaultAsync:
+    async def on_get(self, req, resp):
+        resp.media = {'a': 1}
+        resp.content_type = 'application/x-nope'
+
+
+def _render_fault_run(asgi):
+    app = (falcon.asgi.App if asgi else falcon.App)()
+    app.add_route('/rf', (_RenderFaultAsync if asgi else _RenderFault)())
+    if asgi:
+        return asgi_call(app, make_scope(path='/rf'))
+    return wsgi_call(app, make_environ(path='/rf'))
+
+
+def render_fault_case(asgi):
+    """An HTTPError raised WHILE the body is rendered (media with a content type no handler supports -> 415) must be rendered
+    like any other HTTPError: its status, headers and serialized body."""
+    asgi = pickb(asgi)
+    with notrace():
+        res = _render_fault_run(asgi)
+        if res.status_code != 415:
+            return fail(lambda: 'render-time 415 answered with %r' % (res.status,))
+        try:
+            doc = json.loads(res.body.decode())
+        except ValueError:
+            doc = None
+        if not doc or 'title' not in doc:
+            if 'render-time-error-body-dropped' in LISTED:
+                return 2
+            return fail(lambda: 'HTTPError raised during body rendering: status 415 but body %r (the serialized error is dropped)' % (res.body,))
+    return 1
+
+
+def _known_render_fault():
+    out = []
+    for asgi in (0, 1):
+        res = _render_fault_run(asgi)
+        out.append(res.status_code == 415 and res.body == b'')
+    return all(out), ('resp.media with a content_type no media handler supports: the 415 raised while the body is rendered reaches its handler '
+                      '(status and headers are right) but the serialized error body is dropped -- empty body, content-length 0 -- on WSGI and ASGI')
+
+
+KNOWN = {'render-time-error-body-dropped': _known_render_fault}
+
+
 def unexpected_case(asgi, ci, site):
     """Any other Exception-derived error -> 500, never escapes."""
     ci, site = pick(ci, 0, 4), pick(site, 0, 4)
@@ -453,6 +507,9 @@ def partitions(tier, seed):
                                ['0 <= hdr <= 3 and 0 <= ai < %d and 0 <= vi < %d and 0 <= ti <= 2' % (len(ACCEPTS), len(VARY_PRE))],
                                'render_menu_case(%d, %d, use_desc, use_code, hdr, ai, vi, href, ti)' % (asgi, si), 900,
                                'default rendering table on %s, status #%d (outside tracing, one row per path)' % (tag.upper(), si)))
+        if 'render-time-error-body-dropped' not in LISTED:   # while listed, the concrete KNOWN witness stands in for this partition
+            P.append(_part('render_fault_%s' % tag, 'a: bool', ['a == %s' % bool(asgi)], 'render_fault_case(a)', 60,
+                           'raise site = body rendering (media + unsupported content type -> 415) on %s' % tag.upper()))
         P.append(_part('unexpected_%s' % tag, 'ci: int, site: int', ['0 <= ci <= 4', '0 <= site <= 4'], 'unexpected_case(%d, ci, site)' % asgi, 150,
                        'non-HTTP exceptions from the lattice raised at every site on %s: 500, nothing escapes' % tag.upper()))
     return P
